@@ -18,8 +18,9 @@ func init() {
 			"(R1) reply discipline: every path through handleGet/handlePut/handleInsert/handleDelete sends exactly one reply (all paths enumerated), query/subscription processors end every non-shutdown exit with exactly one done|error, every reply carries the handler's own operation ID, each handler uses only the message types the protocol lists for it, qsub subscribes before it queries; " +
 			"(R2) the dispatch table of Handle (command -> handler, create flag), malformed messages answered with an error; " +
 			"(R4) a cancel message cannot crash the process: a subscription feed is closed only by Cancel, under the write lock, only when the subscription was still registered, at most once (shared with C14-R2); (R3) the accessor returned by Record.GetAccessor (nil for non-JSON wrappers) is nil-checked before every use. " +
+			"(R5) every constant-bound index/slice in the repo functions statically reachable from DatabaseAPI.Handle is dominated by a length test implying the bound (or a named idiom/invariant). " +
 			"NOT decided: absence of other panics for arbitrary messages, wedging, content preservation of written records.",
-		Rules: []ruleFn{c13R1, c13R2, c13R3, func(c *Ctx, r *Report) { subscriptionFeedRule(c, r, "C13-R4") }},
+		Rules: []ruleFn{c13R1, c13R2, c13R3, func(c *Ctx, r *Report) { subscriptionFeedRule(c, r, "C13-R4") }, c13R5},
 	})
 }
 
@@ -448,4 +449,11 @@ func c13R3(c *Ctx, r *Report) {
 	if n < 3 {
 		r.Undecided(rule, "instance-floor", fmt.Sprintf("found %d GetAccessor call sites (expected >= 3)", n))
 	}
+}
+
+func c13R5(c *Ctx, r *Report) {
+	const rule = "C13-R5"
+	r.SetFloor(rule, 1)
+	boundsRule(c, r, rule, "handling an arbitrary database-API message",
+		"api.(*DatabaseAPI).Handle")
 }
